@@ -77,6 +77,9 @@ def pts_bytes(tier):
         B, cs = geom(n)
         for ln in range(0, (4 * B // 8 + 2) if tier == 'thorough' else (2 * B // 8 + 3)):
             pts.append((n, ln))
+        for k in (5, 8, 16, 17, 33) + ((64, 65) if tier == 'thorough' else ()):
+            for dn in (-1, 0, 1):
+                pts.append((n, k * B // 8 + dn))
     return pts
 
 
@@ -178,6 +181,9 @@ def pts_b2len(tier):
         bl = 128 if v == 'b' else 64
         for ln in range(0, 4 * bl + 2):
             pts.append((v, ln))
+        for k in (5, 8, 16, 17, 33) + ((64, 65, 257) if tier == 'thorough' else ()):
+            for dn in (-1, 0, 1):
+                pts.append((v, k * bl + dn))
     return pts
 
 
@@ -270,13 +276,13 @@ def subchecks():
     return [
         Sub('blake-bit-lengths', pts_bits, run_bits, engine='P',
             bound='BLAKE-224/256/384/512 x every bit length 0..2B+cs+18 x 2 patterns (quick: +-9 around 0, B-cs-2, B, 2B-cs-2, 2B)'),
-        Sub('blake-byte-lengths', pts_bytes, run_bytes, engine='P', bound='every byte length 0..4 blocks+1 (quick 0..2 blocks+2)'),
+        Sub('blake-byte-lengths', pts_bytes, run_bytes, engine='P', bound='every byte length 0..4 blocks+1 (quick 0..2 blocks+2); 5, 8, 16, 17, 33 (thorough 64, 65) blocks -1/0/+1 byte'),
         Sub('blake-salt-container', pts_salt, run_salt, engine='P',
             bound='salt in {0,1,all-ones,pattern,2^(3w),2^w} x container {exact, +1 byte, +1 block} at bit lengths around every boundary'),
         Sub('blake-singletons', pts_single, run_single, engine='P', bound='module-level blake224..512 on 9 lengths'),
         Sub('blake-preset-counters', pts_preset, run_preset, engine='H',
             bound='live object with preset chaining value and bit counter around 2^w, 2^(w+1), 2^(2w)-2B, then update(M, padding=True) with |M| in 6 classes; reference compression gets the explicit counter (0 for a padding-only block)'),
-        Sub('blake2-lengths', pts_b2len, run_b2len, engine='P', bound='BLAKE2s/2b x every byte length 0..4 blocks+1 x 2 patterns vs hashlib'),
+        Sub('blake2-lengths', pts_b2len, run_b2len, engine='P', bound='BLAKE2s/2b x every byte length 0..4 blocks+1 and 5, 8, 16, 17, 33 (thorough 64, 65, 257) blocks -1/0/+1 byte x 2 patterns vs hashlib'),
         Sub('blake2-parameters', pts_b2par, run_b2par, engine='P',
             bound='every outlen 1..32/64 on 3 messages; salt/personalization in {empty, full}^2 (+outlen 20); fanout{0,1,2,255} x depth{1,2,255} x leaf{0,1,2^32-1} x node offset{0,1,max} x node depth{0,1,255} x inner{0,1,max}: full product (quick: at most 2 non-default) on a 1-block and a 3-block message vs hashlib'),
         Sub('blake2-singletons', pts_b2single, run_b2single, engine='P', bound='module-level blake2b/blake2s on 7 lengths'),
